@@ -16,7 +16,7 @@ def cases(seed, tier):
     n = 60 if tier == "quick" else 600
     for i in range(n):
         rng = random.Random(sub_seed(seed, "c16x", i))
-        out.append({"group": "extra", "seed": sub_seed(seed, "c16xs", i), "chained": i % 2 == 1, "loss": ["exp", "square", "product"][i % 3],
+        out.append({"group": "extra", "seed": sub_seed(seed, "c16xs", i), "chained": i % 2 == 1, "loss": ["exp", "square", "product", "stationary"][i % 4],
                     "which": rng.choice(["a", "m", "s", "am", "ms", "ams", "ams"]), "ns": rng.choice([20, 40, 60]),
                     "holder": ["explicit", "em"][(i // 6) % 2]})
     # history on one object: expectation, the object's tensors re-assigned (a second generation derived from the same leaves), expectation again,
@@ -53,6 +53,9 @@ def _ref(a, mu, sg, ns, lb, ub):
 
 
 def _loss(kind, y):
+    if kind == "stationary":
+        # a loss that is stationary in the expectation: the first-level cotangent is exactly zero but depends on the parameters
+        return ((y - y.detach()) ** 2).sum() + 0.5 * (y * y.detach()).sum() * 0.0
     if kind == "exp":
         return torch.exp(0.7 * y).sum()
     if kind == "square":
